@@ -6,6 +6,7 @@ import (
 	"github.com/b2broker/simplefix-go/fix"
 	"github.com/b2broker/simplefix-go/session/messages"
 	"reflect"
+	"strconv"
 )
 
 type Validator interface {
@@ -198,28 +199,46 @@ func (s *state) unmarshal(data []byte, fixItem fix.Item) error {
 }
 
 func validateRaw(msg messages.Builder, d []byte, strict bool) error {
-	bs := fix.NewKeyValue(msg.BeginStringTag(), fix.NewRaw(nil))
-	bl := fix.NewKeyValue(msg.BodyLengthTag(), fix.NewRaw(nil))
-	cs := fix.NewKeyValue(msg.CheckSumTag(), fix.NewRaw(nil))
-
-	if err := unmarshalItems(fix.Items{bs, bl, cs}, d, strict); err != nil {
-		return err
+	// The framing fields are positional: BeginString is the first field,
+	// BodyLength the second one and CheckSum the last one.
+	bsQ := append([]byte(msg.BeginStringTag()), '=')
+	if !bytes.HasPrefix(d, bsQ) {
+		return fmt.Errorf("the message does not start with the BeginString field")
 	}
+	bsEnd := bytes.Index(d, fix.Delimiter)
+	if bsEnd == -1 {
+		return fmt.Errorf("the BeginString field is not terminated")
+	}
+	bsVal := d[len(bsQ):bsEnd]
 
-	blVal := fix.NewInt(0)
-	if err := blVal.FromBytes(bl.Load().ToBytes()); err != nil {
+	blQ := append([]byte(msg.BodyLengthTag()), '=')
+	rest := d[bsEnd+1:]
+	if !bytes.HasPrefix(rest, blQ) {
+		return fmt.Errorf("the BodyLength field does not follow the BeginString field")
+	}
+	blEnd := bytes.Index(rest, fix.Delimiter)
+	if blEnd == -1 {
+		return fmt.Errorf("the BodyLength field is not terminated")
+	}
+	blVal := rest[len(blQ):blEnd]
+	offset := bsEnd + 1 + blEnd + 1 // the body starts after the BodyLength field delimiter
+
+	if d[len(d)-1] != fix.Delimiter[0] {
+		return fmt.Errorf("the message is not terminated")
+	}
+	csStart := bytes.LastIndex(d[:len(d)-1], fix.Delimiter) // the delimiter preceding the last field
+	csQ := append([]byte{fix.Delimiter[0]}, append([]byte(msg.CheckSumTag()), '=')...)
+	if csStart < offset-1 || !bytes.HasPrefix(d[csStart:], csQ) {
+		return fmt.Errorf("the message does not end with the CheckSum field")
+	}
+	csVal := d[csStart+len(csQ) : len(d)-1]
+
+	bodyLength, err := strconv.Atoi(string(blVal))
+	if err != nil {
 		return fmt.Errorf("invalid body length: %w", err)
 	}
-	if blVal.IsNull() {
-		return fmt.Errorf("invalid body length: value is empty")
-	}
-	bodyLength := blVal.Value().(int)
 
-	offset := len(bs.ToBytes()) + 1 // extra delimiter
-	offset += len(bl.ToBytes()) + 1 // extra delimiter
-	length := len(d) - offset
-	length -= len(cs.ToBytes()) + 1 // extra delimiter
-
+	length := csStart + 1 - offset
 	if length != bodyLength {
 		return fmt.Errorf("an invalid body length; specified: %d, required: %d",
 			bodyLength,
@@ -227,14 +246,18 @@ func validateRaw(msg messages.Builder, d []byte, strict bool) error {
 		)
 	}
 
-	checkSum := fix.CalcCheckSum(d[:offset+length-1])
+	checkSum := fix.CalcCheckSum(d[:csStart])
 
-	if !bytes.Equal(cs.Load().ToBytes(), checkSum) {
+	if !bytes.Equal(csVal, checkSum) {
 		return fmt.Errorf(
 			"an invalid checksum; specified: %s, required: %s",
-			string(cs.Load().ToBytes()),
+			string(csVal),
 			string(checkSum),
 		)
+	}
+
+	if want := msg.BeginString().ToBytes(); want != nil && !bytes.Equal(want[len(bsQ):], bsVal) {
+		return fmt.Errorf("an unexpected BeginString value: %s", string(bsVal))
 	}
 
 	return nil
